@@ -280,6 +280,60 @@ def check_inv_tagged(ex, P, g):
         ex.check(f"{tag_of(name)}_{name}", c)
 
 
+# ---- construction: the real __init__ establishes the object invariant on state the new object owns -------------------------------
+STATE_ATTRS = ("_host", "_port", "_comm_addr", "_running_loop", "_lock", "_timer", "timeout", "retries", "keep_alive",
+               "protocol", "response_future", "command", "_partial_data", "_partial_missing", "_transport", "_retry")
+_MUTABLE = (list, dict, set, bytearray)
+
+
+def init_segment(ex, kind):
+    """Base case of the monitor argument (DESIGN 2.6): the real constructor, run on arbitrary arguments, yields an object
+    that satisfies the invariant the segments start from, with the configured timeout / retries, nothing open, no
+    asyncio object created outside a loop - and every attribute of the state machine stored on the object itself, so
+    that two protocol objects share no fragment buffer, counter or future (ownership; C07 'a fragment of one
+    transmission ...', C20 independence)."""
+    import goodwe.protocol as gp
+    cls = gp.UdpInverterProtocol if kind == "udp" else gp.TcpInverterProtocol
+    ex.unit = f"{cls.__name__}.__init__"
+    T, R, A, port = ex.fresh_int("timeout"), ex.fresh_int("retries"), ex.fresh_int("comm_addr"), ex.fresh_int("port")
+    ex.assume(mk_bool(z3.And(T.t >= 1, R.t >= 0, A.t >= 0, A.t <= 255, port.t >= 1, port.t <= 65535)))
+    ex.inputs.update({"kind": kind, "timeout": T, "retries": R})
+    g = pg(ex)
+    raised = None
+    try:
+        P = ex.call(cls, ["host", port, A, T, R], {})
+    except PyRaise as pr:
+        raised = pr.exc
+    ex.check("C09_constructor_raises_nothing", raised is None, detail=repr(raised))
+    if raised is not None:
+        return
+    g.proto = P
+    # every attribute the state machine reads exists (on the object or as a class default) ...
+    undefined = [a for a in STATE_ATTRS if not hasattr(P, a)]
+    ex.check("C04_C09_every_state_attribute_is_defined_by_construction", not undefined, detail=", ".join(undefined))
+    # ... and none of it is a mutable container reachable from the class, which all objects of the process would share
+    # (an immutable class-level default that methods rebind on the object is harmless and accepted)
+    shared = [f"{c.__name__}.{n}" for c in cls.__mro__ if c.__module__.startswith("goodwe")
+              for n, v in vars(c).items() if isinstance(v, _MUTABLE) and not n.startswith("__")]
+    ex.check("C07_C20_no_mutable_class_level_state", not shared, detail=", ".join(shared))
+    if undefined:
+        return
+    aliased = [a for a in STATE_ATTRS if isinstance(getattr(P, a), _MUTABLE) and a not in getattr(P, "__dict__", {})]
+    ex.check("C07_C20_no_state_attribute_is_a_shared_container", not aliased, detail=", ".join(aliased))
+    ex.check("C05_constructor_keeps_the_configured_timeout", ex.compare(_EQ, P.timeout, T))
+    ex.check("C05_constructor_keeps_the_configured_retries", ex.compare(_EQ, P.retries, R))
+    ex.check("C04_C05_constructor_starts_with_the_full_retry_budget", ex.compare(_EQ, P._retry, 0))
+    ex.check("C10_nothing_open_after_construction", P._transport is None and not g.open)
+    ex.check("C10_no_asyncio_object_is_created_outside_a_loop",
+             P._lock is None and P._running_loop is None and P._timer is None and P.response_future is None)
+    ex.check("C06_no_request_in_flight_after_construction", P.command is None and P.response_future is None)
+    ex.check("C07_no_fragment_after_construction", P._partial_data is None and ex.compare(_EQ, P._partial_missing, 0) is True
+             or bool(P._partial_data is None and ex.known(iterm(P._partial_missing) == 0)))
+    ex.check("C10_keep_alive_is_off_unless_requested", P.keep_alive is False)
+    check_inv_tagged(ex, P, g)
+
+
+
 # ---- callbacks --------------------------------------------------------------------------------------------------------------
 def callback_segment(ex, kind, which):
     """one protocol callback from an arbitrary invariant state"""
